@@ -14,3 +14,28 @@ Definition chk_orient_gen (c : list (watom QK) * (vec3 QK * mat3 QK) * option (l
   | Err PyAssertion, None => true
   | _, _ => false
   end.
+
+(** ** the STORED geometry (Gen/OrientStore.v: float_prep after the internal result), executable over Q *)
+Require Import QV.Gen.OrientStore.
+
+(* round half to even of an exact rational *)
+Definition q_rint (x : Q) : Z :=
+  let n := Qnum x in let d := Zpos (Qden x) in
+  let f := (n / d)%Z in
+  let r2 := (2 * (n - f * d))%Z in
+  if (r2 <? d)%Z then f else if (d <? r2)%Z then (f + 1)%Z else if Z.even f then f else (f + 1)%Z.
+(* np.around(x, n) = rint(x * 10^n) / 10^n  (n >= 0) *)
+Definition q_around (n : Z) (x : Q) : Q := inject_Z (q_rint (x * inject_Z (10 ^ n))) / inject_Z (10 ^ n).
+
+(* case: atoms, numpy's eigh answer, (geometry_noise, the geometry stored by Molecule(orient=True, ...)); tolerance: one unit of
+   the rounding (the exact and the binary64 internal results differ by ~1e-10, which can move a value across a rounding boundary) *)
+Definition chk_stored (c : list (watom QK) * (vec3 QK * mat3 QK) * (Z * list (vec3 QK))) : bool :=
+  let '(atoms, (lam, V), (gn, g)) := c in
+  let eigh := fun T : mat3 QK => if eigh_ok_b T lam V then (lam, V) else ((0, 0, 0), mzero QK) in
+  match orient_stored_gen QK eigh q_around gn (map fst atoms) (map snd atoms) with
+  | Ok g' => rows_close ((1001 # 1000) / inject_Z (10 ^ gn)) g' g
+  | Err _ => false
+  end.
+
+Definition list_Qeqb (a b : list Q) : bool :=
+  Nat.eqb (length a) (length b) && forallb (fun p => Qeq_bool (fst p) (snd p)) (combine a b).
